@@ -1,6 +1,8 @@
 /- Line-protocol driver: one request per line on stdin, one response per line on stdout.
    Imports only Mathlib-free model files. -/
+import Iodata.Drv.Cli
 import Iodata.Drv.Conv
+import Iodata.Drv.Flow
 import Iodata.Drv.Fmt
 import Iodata.Drv.Helpers
 import Iodata.Drv.IOData
@@ -12,7 +14,7 @@ import Iodata.Drv.Select
 import Iodata.Drv.Units
 
 def handlers : List (List String → Option String) :=
-  [Iodata.Drv.Conv.handle, Iodata.Drv.Fmt.handle, Iodata.Drv.Helpers.handle, Iodata.Drv.IOData.handle, Iodata.Drv.Inputs.handle, Iodata.Drv.Orbitals.handle, Iodata.Drv.Overlap.handle, Iodata.Drv.Segment.handle, Iodata.Drv.Select.handle, Iodata.Drv.Units.handle]
+  [Iodata.Drv.Cli.handle, Iodata.Drv.Conv.handle, Iodata.Drv.Flow.handle, Iodata.Drv.Fmt.handle, Iodata.Drv.Helpers.handle, Iodata.Drv.IOData.handle, Iodata.Drv.Inputs.handle, Iodata.Drv.Orbitals.handle, Iodata.Drv.Overlap.handle, Iodata.Drv.Segment.handle, Iodata.Drv.Select.handle, Iodata.Drv.Units.handle]
 
 def respond (line : String) : String :=
   let ws := (line.splitOn " ").filter (· ≠ "")
